@@ -69,6 +69,9 @@ func execLocal(input string) (out string) {
 	if f[0] == "strag" {
 		return execStrag(f)
 	}
+	if f[0] == "create" {
+		return execCreate(f)
+	}
 	return execE2E(parseScenario(f))
 }
 
